@@ -91,12 +91,14 @@ func (f *TLSFarm) ClientCertDER() []byte {
 }
 
 // ServerCert returns a server certificate for ip with the given identity:
-// caA | caB | foreign | selfsigned | expired | wrongname | notyet
+// caA | caB | foreign | selfsigned | expired | wrongname | notyet | justexpired | justvalid
 func (f *TLSFarm) ServerCert(identity, ip string) tls.Certificate {
 	f.mu.Lock()
 	defer f.mu.Unlock()
 	k := identity + "/" + ip
-	if c, ok := f.serverCert[k]; ok {
+	// certificates whose dates are relative to "a few seconds ago" are made afresh every time
+	fresh := identity == "justexpired" || identity == "justvalid"
+	if c, ok := f.serverCert[k]; ok && !fresh {
 		return c
 	}
 	key := "p384a"
@@ -104,7 +106,7 @@ func (f *TLSFarm) ServerCert(identity, ip string) tls.Certificate {
 	san := net.ParseIP(ip)
 	now := time.Now()
 	switch identity {
-	case "caA", "expired", "wrongname", "notyet":
+	case "caA", "expired", "wrongname", "notyet", "justexpired", "justvalid":
 		spec.Issuer, spec.IssuerKey = f.cas["caA"], caKeys["caA"]
 	case "caB":
 		spec.Issuer, spec.IssuerKey = f.cas["caB"], caKeys["caB"]
@@ -114,6 +116,12 @@ func (f *TLSFarm) ServerCert(identity, ip string) tls.Certificate {
 	}
 	if identity == "expired" {
 		spec.NotBefore, spec.NotAfter = now.Add(-48*time.Hour), now.Add(-24*time.Hour)
+	}
+	if identity == "justexpired" { // issued by the configured CA, right name, expired 20 s ago
+		spec.NotBefore, spec.NotAfter = now.Add(-48*time.Hour), now.Add(-20*time.Second)
+	}
+	if identity == "justvalid" { // genuine, and valid since 20 s only
+		spec.NotBefore, spec.NotAfter = now.Add(-20*time.Second), now.Add(48*time.Hour)
 	}
 	if identity == "notyet" {
 		spec.NotBefore, spec.NotAfter = now.Add(24*time.Hour), now.Add(48*time.Hour)
